@@ -501,14 +501,19 @@ fn exhaustive(ctx: &Ctx, root: &Rng, pid: usize, kmax: usize, nmax: usize, case_
     let kinds: Vec<u8> = (0..kmax).map(|_| *r.pick(&[0u8, 1, 1, 2, 2, 4])).collect();
     let hv: Vec<(u8, u8)> = vects.iter().copied().zip(kinds.iter().copied()).collect();
     // a program whose uninterrupted run is short enough
-    let (pl, base_rr) = loop {
+    let mut found = None;
+    for _attempt in 0..400 {
         let cfg = GenCfg { blocks: 2 + r.below(4) as usize, input: false, putsp: false, fault: Fault::None, long_loops: false, fault_in_sub: false };
         let up = gen_user(&mut r, &cfg);
         let mut pl = make_plan(&mut r, &up, &hv, &opts);
         pl.st.extras = vec![Extra::Script(vec![])];
         let rr = run_machine(ctx, &pl.st, 4000, false, stats);
-        if matches!(rr.end, EndK::Halt | EndK::McrOff) && rr.steps >= 4 && rr.steps <= nmax { break (pl, rr); }
+        if matches!(rr.end, EndK::Halt | EndK::McrOff) && rr.steps >= 4 && rr.steps <= nmax { found = Some((pl, rr)); break; }
         tot.discarded.fetch_add(1, Relaxed);
+    }
+    let Some((pl, base_rr)) = found else {
+        ctx.fail("C10", "no_halting_baseline", format!("none of 400 generated fault-free programs (set {pid}) reaches its HALT without interrupts"), "irq.baseline\t()".into());
+        return;
     };
     let base = fin_of(&base_rr, true);
     let n0 = base_rr.steps;
@@ -561,15 +566,20 @@ fn random_sched(ctx: &Ctx, root: &Rng, pid: usize, nsched: usize, case_budget: &
     vects.retain(|v| *v != 0x80);
     let mut hv: Vec<(u8, u8)> = vects.iter().map(|v| (*v, *r.pick(&[0u8, 1, 2, 4]))).collect();
     hv.push((0x80, 3));
-    let (pl, base_rr) = loop {
+    let mut found = None;
+    for _attempt in 0..400 {
         let cfg = GenCfg { blocks: 3 + r.below(8) as usize, input: false, putsp: false, fault: Fault::None, long_loops: r.chance(1, 2), fault_in_sub: false };
         let up = gen_user(&mut r, &cfg);
         let mut o2 = opts.clone(); o2.kb = opts.kb.as_ref().map(|(q, _)| (q.clone(), false));
         let mut pl = make_plan(&mut r, &up, &hv, &o2);
         let rr = run_machine(ctx, &pl.st, 6000, false, stats);
         pl.st.kb = opts.kb.clone();
-        if matches!(rr.end, EndK::Halt | EndK::McrOff) && rr.steps >= 4 { break (pl, rr); }
+        if matches!(rr.end, EndK::Halt | EndK::McrOff) && rr.steps >= 4 { found = Some((pl, rr)); break; }
         tot.discarded.fetch_add(1, Relaxed);
+    }
+    let Some((pl, base_rr)) = found else {
+        ctx.fail("C10", "no_halting_baseline", format!("none of 400 generated fault-free programs (random set {pid}) reaches its HALT without interrupts"), "irq.baseline\t()".into());
+        return;
     };
     let base = fin_of(&base_rr, true);
     let n0 = base_rr.steps;
@@ -743,7 +753,11 @@ fn c12_pair(ctx: &Ctx, root: &Rng, k: usize, t: &T12, stats: &EntryStats, want_c
             Some(e) => { stop = Some(e); break; }
         }
     }
-    let Some(stop) = stop else { t.limit.fetch_add(1, Relaxed); return; };
+    let Some(stop) = stop else {
+        t.limit.fetch_add(1, Relaxed);
+        if !cfg.input && !cfg.long_loops { ctx.fail("C12", "virtual_run_no_stop", format!("program {k} (no keyboard input, ends in HALT or a fault) does not stop under virtual traps within {limit} steps"), replay_of(&sv, &envs)); }
+        return;
+    };
     // ---- the real run continues through the OS
     let disp_v = mv.ds.as_ref().unwrap().read().unwrap().clone();
     let mut tail = 0usize;
@@ -845,13 +859,13 @@ pub fn run(ctx: &Ctx, _replay: Option<&str>) {
     let stats = EntryStats::default();
     let tot = Totals::default();
     // ---------------- C10
-    let budget = AtomicU64::new(ctx.n(1500, 12_000));
+    let budget = AtomicU64::new(ctx.n(600, 12_000));
     let nprog = ctx.n(10, 24) as usize;
     for pid in 0..nprog { exhaustive(ctx, &root, pid, 2, if ctx.quick() { 40 } else { 70 }, &budget, &stats, &tot); }
     if !ctx.quick() { for pid in 0..5 { exhaustive(ctx, &root, 100 + pid, 3, 34, &budget, &stats, &tot); } }
-    let budget2 = AtomicU64::new(ctx.n(600, 6000));
+    let budget2 = AtomicU64::new(ctx.n(300, 6000));
     for pid in 0..ctx.n(12, 60) as usize { random_sched(ctx, &root, pid, ctx.n(250, 1500) as usize, &budget2, &stats, &tot); }
-    random_states(ctx, &root, ctx.n(20_000, 400_000) as usize, &stats);
+    random_states(ctx, &root, ctx.n(12_000, 400_000) as usize, &stats);
     let (seen, tried) = negative_control(ctx, &root, &stats);
     ctx.stat("c10.negative_control.detected", seen as i64);
     ctx.stat("c10.negative_control.tried", tried as i64);
@@ -867,8 +881,8 @@ pub fn run(ctx: &Ctx, _replay: Option<&str>) {
     // ---------------- C12
     let t = T12 { progs: Default::default(), halts: Default::default(), excs: Default::default(), other_err: Default::default(), lock_steps: Default::default(),
                   real_tail: Default::default(), limit: Default::default(), api_runs: Default::default() };
-    let n12 = ctx.n(4000, 60_000) as usize;
-    let cases12 = ctx.n(500, 5000) as usize;
+    let n12 = ctx.n(2500, 60_000) as usize;
+    let cases12 = ctx.n(250, 5000) as usize;
     par_for(n12, |k| c12_pair(ctx, &root, k, &t, &stats, k < cases12));
     for (k, v) in [("programs", &t.progs), ("virtual_halt", &t.halts), ("exc_illegal_opcode", &t.excs[0]), ("exc_invalid_format", &t.excs[1]), ("exc_privilege", &t.excs[2]),
                    ("exc_access", &t.excs[3]), ("other_stop", &t.other_err), ("lockstep_steps", &t.lock_steps), ("real_tail_steps", &t.real_tail),
